@@ -184,8 +184,12 @@ example :
 
 /-- what the machine transcribes is what the source says now (regenerated from the repository on every run into
     Generated/FactsAst.lean):
-    * the primitives that are NOT translated — ast.SetReaderPos and the SetReaderPos methods of the node kinds and of lists —
-      as normalised source text;
+    * ast.SetReaderPos and the SetReaderPos methods of the node kinds and of lists are TRANSLATED at heap level on every run
+      (Generated/FactsAst.lean, namespace PV.FactsAstProg: node structs on a heap, a list as a slice of node handles, the
+      call-back applied in place) and the machine's `setRP` / `Op.setReaderPos` is PROVED to compute what the translated
+      functions compute, and nothing else (Props/C07P.lean, `c07_translated_setReaderPos`, `…_op`, `…_frame`, built and
+      audited with this property); here only that all of them were translated on this run.  (The four full-text facts that
+      stood here for these functions are subsumed by that tie.)
     * AppendNode, (*NodeList).Append, the copying result handler and the sequence buffer write of parseNext — whose bodies
       are translated at value level on every run and proved equal to the model's functions (Props/C01P.lean,
       `c01p_context_cache_append`, `c01p_sequence_machinery`, built and audited with this property) — by their SLICE-LEVEL
@@ -198,15 +202,15 @@ example :
     * Memoize with its capacity clip before the store (structural; the clip may stand in a helper), Any, Optional. -/
 theorem c07_source_facts_ast :
     FactsAst.appendNodeSliceOps = ["_.Append(_)", "_:=NodeList([]parsley.Node{_})", "_.Append(_)"] ∧
-    FactsAst.setReaderPosBody = "{switchn:=node.(type){caseReaderPosSetter:n.SetReaderPos(f)caseEmptyNode:returnEmptyNode(f(parsley.Pos(n)))default:panic(\"invalidnodetypeforSetReaderPos(),youneedtoimplementtheast.ReaderPosSetterinterface\")}returnnode}" ∧
+    "SetReaderPos" ∈ FactsAstProg.translatedAst ∧
     FactsAst.nodeListAppendSliceOps = ["_.Append(_)", "*_=append(*_,_)", "*_=append(*_,_)"] ∧
-    FactsAst.nodeListSetReaderPosBody = "{fori,node:=rangenl{nl[i]=SetReaderPos(node,f)}}" ∧
-    FactsAst.terminalSetReaderPosBody = "{t.readerPos=f(t.readerPos)}" ∧
-    FactsAst.nonTerminalSetReaderPosBody = "{n.readerPos=f(n.readerPos)}" ∧
+    "NodeList_SetReaderPos" ∈ FactsAstProg.translatedAst ∧
+    "TerminalNode_SetReaderPos" ∈ FactsAstProg.translatedAst ∧
+    "NonTerminalNode_SetReaderPos" ∈ FactsAstProg.translatedAst ∧
     FactsAst.seqResultHandlerSliceOps = ["_:=make([]parsley.Node,_)", "copy(_,_)"] ∧
     FactsAst.seqParseNextSliceOps = ["_.nodes=append(_.nodes,_)", "_.nodes[_]=_"] ∧
     FactsAst.memoizeClips = true ∧ FactsAst.memoizeClipsBeforeSave = true ∧
     FactsAst.anyAppendNodeCalls = ["node,node"] ∧ FactsAst.optionalAppendNodeCalls = ["node,empty"] :=
-  ⟨rfl, rfl, rfl, rfl, rfl, rfl, rfl, rfl, rfl, rfl, rfl, rfl⟩
+  ⟨rfl, by decide, rfl, by decide, by decide, by decide, rfl, rfl, rfl, rfl, rfl, rfl⟩
 
 end PV.Slice
